@@ -455,10 +455,10 @@ theorem C13_func_other_target_merge_keeps_args (rec : Node → Node → Except E
     (hsk : sk.func? = some f) (hok : ok.func? = some g) (hdiff : g ≠ f)
     (hp : hasPrio of sf true = true) (hdel : eDel (.comp of ok ocs) = false) :
     funcMerge rec sf sk f scs (.comp of ok ocs) =
-      (match mergeLoop rec sf (sk.setFunc g) scs ocs with
+      (match mergeLoop rec sf (sk.setFunc g) [] scs ocs with
        | .error e => .error e
        | .ok scs' => .ok (propagate (.comp (replaceSelfFlags sf of) (sk.setFunc g) scs'), true)) ∧
-    ∀ scs', mergeLoop rec sf (sk.setFunc g) scs ocs = .ok scs' →
+    ∀ scs', mergeLoop rec sf (sk.setFunc g) [] scs ocs = .ok scs' →
       (∀ k, (∀ kv ∈ ocs, kv.1 ≠ k) → alookup k scs' = alookup k scs) ∧
       (∀ k v pre post, ocs = pre ++ (k, v) :: post → (∀ kv ∈ pre, kv.1 ≠ k) →
         (∀ kv ∈ post, kv.1 ≠ k) → alookup k scs = none → alookup k scs' = some (adopt sf (sk.setFunc g) v)) := by
@@ -469,7 +469,7 @@ theorem C13_func_other_target_merge_keeps_args (rec : Node → Node → Except E
   · simp only [funcMerge, hok, hp]
     rw [if_pos (by simpa using hdiff)]
     simp only [Bool.not_true, Bool.false_eq_true, if_false, hdel, compMerge]
-    cases mergeLoop rec sf (sk.setFunc g) scs ocs with
+    cases mergeLoop rec sf (sk.setFunc g) [] scs ocs with
     | error e => rfl
     | ok scs' =>
       simp only [finishMerge, Node.flags, hp, if_true]
@@ -558,7 +558,7 @@ theorem C13_mapping_updates_args_keywise (rec : Node → Node → Except Err (No
     (h : funcMerge rec sf sk f scs (.comp of .dict ocs) = .ok (r, same)) :
     (∃ fl cs, r = .comp fl sk cs) ∧
     (eDel (.comp of .dict ocs) = false →
-      ∃ fl scs' cs, r = .comp fl sk cs ∧ mergeLoop rec sf sk scs ocs = .ok scs' ∧
+      ∃ fl scs' cs, r = .comp fl sk cs ∧ mergeLoop rec sf sk [] scs ocs = .ok scs' ∧
         cs.map (·.1) = scs'.map (·.1) ∧ native r = native (.comp sf sk scs') ∧
         (∀ k, (∀ kv ∈ ocs, kv.1 ≠ k) → alookup k scs' = alookup k scs) ∧
         (∀ k v pre post, ocs = pre ++ (k, v) :: post → (∀ kv ∈ pre, kv.1 ≠ k) →
